@@ -301,3 +301,73 @@ def failing_suffix(nfa: NFA, x: List[CharSet], w: List[CharSet], max_len: int = 
 
 def show(codes: List[int], is_bytes: bool) -> str:
     return "".join(chr(c) if 0x20 <= c < 0x7F else (f"\\x{c:02x}" if c < 256 else f"\\u{c:04x}") for c in codes)
+
+
+def count_runs(nfa: NFA, word: List[int], upto: int, cap: int = 1 << 20) -> int:
+    """Number of distinct partial runs of the automaton over word[:upto] (paths from the start state; epsilon cycles are not
+    followed twice), honouring look-ahead assertions recorded on epsilon edges: such an edge may be taken at position i only if
+    the asserted sub-pattern matches (or, negated, does not match) a prefix of word[i:].  The rest of the word (word[upto:]) is
+    only ever looked at by assertions."""
+    from .nfa import build
+    from .lang import Lang
+    edges = getattr(nfa, "assert_edges", {})
+    sub_cache: Dict[int, object] = {}
+
+    def holds(key, i: int) -> bool:
+        neg, direction, items = edges[key]
+        if direction != 1:
+            raise AnalysisError("look-behind assertions are not modelled")
+        if id(items) not in sub_cache:
+            pat, flags = nfa.build_args
+            sub_cache[id(items)] = Lang(build(pat, flags, "match", lookaround="error", items_override=items))
+        lg = sub_cache[id(items)]
+        st = lg.start()
+        ok = lg.accepts(st)
+        for c in word[i:]:
+            if ok:
+                break
+            st = lg.step(st, c)
+            ok = lg.accepts(st)
+        return (not ok) if neg else ok
+
+    def closure(counts: Dict[int, int], i: int) -> Dict[int, int]:
+        # number of epsilon paths from the counted states to every state reachable at position i (cycles cut)
+        out: Dict[int, int] = {}
+
+        def walk(s: int, k: int, on: frozenset) -> None:
+            out[s] = min(cap, out.get(s, 0) + k)
+            for t in nfa.eps[s]:
+                if t in on:
+                    continue
+                if (s, t) in edges and not holds((s, t), i):
+                    continue
+                walk(t, k, on | {t})
+        for s, k in counts.items():
+            walk(s, k, frozenset([s]))
+        return out
+    cur = closure({nfa.start: 1}, 0)
+    for i in range(upto):
+        c = word[i]
+        nxt: Dict[int, int] = {}
+        for s, k in cur.items():
+            for pi in nfa.out_pos[s]:
+                if c in nfa.positions[pi].cs:
+                    d = nfa.positions[pi].dst
+                    nxt[d] = min(cap, nxt.get(d, 0) + k)
+        cur = closure(nxt, i + 1)
+        if not cur:
+            return 0
+    return min(cap, sum(cur.values()))
+
+
+def confirmed_exponential(nfa: NFA, xs: List[int], ws: List[int], suf: List[int]) -> Optional[bool]:
+    """With look-ahead assertions honoured: do the runs over x.w^n still double with n?  True / False / None (undecided)."""
+    counts = []
+    for n in (4, 6, 8, 10):
+        word = list(xs) + list(ws) * n + list(suf)
+        counts.append(count_runs(nfa, word, len(xs) + len(ws) * n))
+    if counts[-1] >= 1 << 9 and counts[1] >= 1 << 5 and counts[-1] >= 8 * counts[1]:
+        return True
+    if counts[-1] <= 4 * max(1, counts[0]) and counts[-1] < 200:
+        return False
+    return None
